@@ -62,6 +62,11 @@ func relevantMask(pat *refre.Pattern, flags string) int {
 	return m
 }
 
+// isExecSite: a disagreement on the result of exec (not on lastIndex).
+func isExecSite(site string) bool {
+	return strings.HasSuffix(site, "exec:index") || strings.HasSuffix(site, "exec:span") || strings.HasSuffix(site, "exec:captures")
+}
+
 func parseFor(in Input) *refre.Pattern {
 	cls, pat, _ := refre.Classify(in.P)
 	if cls == refre.Malformed {
@@ -90,7 +95,7 @@ func explainingMasks(f *run.Failure) []int {
 	if !ok || (in.Op != "match" && in.Op != "class") {
 		return nil
 	}
-	if !strings.HasSuffix(f.Site, "exec:span") && !strings.HasSuffix(f.Site, "exec:captures") {
+	if !isExecSite(f.Site) {
 		return nil
 	}
 	pat := parseFor(in)
@@ -503,14 +508,29 @@ func hasBareControlEscape(p string) bool {
 }
 
 // hasNestedNullableLoop: a quantified atom with optional iterations whose body
-// can match the empty string, contains a capturing group and contains another
-// quantifier.
-func hasNestedNullableLoop(p *refre.Pattern) bool {
+// can match the empty string and contains another quantifier; optionally the
+// body must contain a capturing group / a lazy quantifier.
+func hasNestedNullableLoop(p *refre.Pattern, needCapture, needLazy bool) bool {
 	found := false
 	walk(p.Root, func(n *refre.Node) {
-		if n.Kind == refre.KRepeat && (n.Max == -1 || n.Max > n.Min) && n.ParenCount > 0 && nullable(n.Sub) && hasKind(n.Sub, refre.KRepeat) {
-			found = true
+		if n.Kind != refre.KRepeat || !(n.Max == -1 || n.Max > n.Min) || !nullable(n.Sub) || !hasKind(n.Sub, refre.KRepeat) {
+			return
 		}
+		if needCapture && n.ParenCount == 0 {
+			return
+		}
+		if needLazy {
+			lazy := false
+			walk(n.Sub, func(x *refre.Node) {
+				if x.Kind == refre.KRepeat && !x.Greedy {
+					lazy = true
+				}
+			})
+			if !lazy {
+				return
+			}
+		}
+		found = true
 	})
 	return found
 }
@@ -550,15 +570,27 @@ func registerMatchers() {
 
 	// --- residual RE2 difference: nested quantifiers with a nullable body. RE2 never
 	// revisits a (program counter, position) pair, so an outer iteration that would
-	// start where the inner loop just stopped is merged into the inner loop; only the
-	// captures are affected (the overall match is still compared and must agree).
+	// start where the inner loop just stopped is merged into the inner loop. Both
+	// engines accept the same language, so whether and where the leftmost match starts
+	// (site exec:index) is never matched here and must agree. Captures may differ when
+	// the loop contains a group; the matched substring may differ only when the loop
+	// contains a lazy quantifier (/(?:c?a*?)+/ on "ca": RE2 "c", ES5 "ca").
 	run.RegisterMatcher("c10.nested-nullable-loop", func(f *run.Failure) bool {
 		in, ok := input(f)
-		if !ok || !strings.HasSuffix(f.Site, "exec:captures") {
+		if !ok {
 			return false
 		}
 		pat := parseFor(in)
-		return pat != nil && hasNestedNullableLoop(pat)
+		if pat == nil {
+			return false
+		}
+		switch {
+		case strings.HasSuffix(f.Site, "exec:captures"):
+			return hasNestedNullableLoop(pat, true, false) || hasNestedNullableLoop(pat, false, true)
+		case strings.HasSuffix(f.Site, "exec:span"):
+			return hasNestedNullableLoop(pat, false, true)
+		}
+		return false
 	})
 
 	// --- lastIndex kept as a UTF-8 byte offset
@@ -612,14 +644,14 @@ func registerMatchers() {
 		if !ok || !strings.Contains(in.P, "[:") {
 			return false
 		}
-		return strings.HasSuffix(f.Site, "exec:span") || strings.HasSuffix(f.Site, "exec:captures") || f.Site == "new RegExp:portable-rejected" && f.Actual == "throw:SyntaxError"
+		return isExecSite(f.Site) || f.Site == "new RegExp:portable-rejected" && f.Actual == "throw:SyntaxError"
 	})
 	run.RegisterMatcher("c10.leading-bracket-class", func(f *run.Failure) bool {
 		in, ok := input(f)
 		if !ok || !hasLeadingBracketClass(in.P) {
 			return false
 		}
-		return strings.HasSuffix(f.Site, "exec:span") || strings.HasSuffix(f.Site, "exec:captures") || f.Site == "new RegExp:portable-rejected" && f.Actual == "throw:SyntaxError"
+		return isExecSite(f.Site) || f.Site == "new RegExp:portable-rejected" && f.Actual == "throw:SyntaxError"
 	})
 	run.RegisterMatcher("c10.bare-control-escape", func(f *run.Failure) bool {
 		in, ok := input(f)
